@@ -135,7 +135,7 @@ static int layout_mode(long count, uint64_t seed, const char* outp) {
 // ---------------------------------------------------------------- C07: damaged files
 static TableSpec base_spec(int n) {
 	TableSpec s; s.ndim = n; const int ord[3] = {2, 1, 3}; const int extra[3] = {2, 1, 0};
-	for (int d = 0; d < n; d++) { s.order.push_back(ord[d]); std::vector<double> k; for (int j = 0; j < 2 * ord[d] + 2 + extra[d]; j++) k.push_back(j - 2 + d); s.knots.push_back(k); }
+	for (int d = 0; d < n; d++) { int o = n > 3 ? d % 2 : ord[d], e = n > 3 ? 0 : extra[d]; s.order.push_back(o); std::vector<double> k; for (int j = 0; j < 2 * o + 2 + e; j++) k.push_back(j - 2 + d); s.knots.push_back(k); }   // n > 3: small orders 0,1,0,1,.. so that 7..9-D tables stay small
 	s.coeffs.resize(s.ncoeffs()); for (size_t i = 0; i < s.coeffs.size(); i++) s.coeffs[i] = (float)(1 + (i % 7) * 0.25);
 	return s;
 }
@@ -231,7 +231,7 @@ static int damaged_mode(const char* cases, uint64_t seed, const char* outp) {
 				volatile double sink = 0; uint32_t nd = t->get_ndim(); std::vector<double> x(nd); std::vector<int> cen(nd); std::vector<double> g(nd + 1);
 				for (int rep = 0; rep < 8; rep++) {
 					for (uint32_t d = 0; d < nd; d++) { double lo = t->get_knot(d, 0), hi = t->get_knot(d, t->get_nknots(d) - 1); x[d] = rep == 0 ? lo : rep == 1 ? hi : lo + (hi - lo) * (rep - 1) / 6.5; }
-					if (t->searchcenters(x.data(), cen.data())) { sink = sink + t->ndsplineeval(x.data(), cen.data(), 0) + t->ndsplineeval(x.data(), cen.data(), 1); if (nd < 8) t->ndsplineeval_gradient(x.data(), cen.data(), g.data()); }
+					if (t->searchcenters(x.data(), cen.data())) { sink = sink + t->ndsplineeval(x.data(), cen.data(), 0) + t->ndsplineeval(x.data(), cen.data(), 1); try { t->ndsplineeval_gradient(x.data(), cen.data(), g.data()); } catch (std::runtime_error&) {} }   // refused above 7 dimensions
 					sink = sink + (*t)(x.data());
 				}
 				{ Table o2; std::vector<unsigned char> good = mf::build(layout(base_spec(1), {})); o2.read_fits_mem(good.data(), good.size()); sink = sink + (*t == o2) + (*t == *t); }
